@@ -148,6 +148,8 @@ class LifterModel(object):
             if live_reg and X.dis_digit_reg_rejected(modifs, dibs):
                 live_reg = []           # _dis returns None for a register r/m operand of this row
             live_mem = any(b < 0xC0 for b in live)
+            if modifs.get(mmx) and X.dis_mmx_modes(name, list(prefix), False, digit=True) == 'rejected':
+                return                  # _dis returns None for this (row, mandatory prefix) pair
             if modifs.get(mmx):
                 if live_reg:
                     r_ = X.dis_mmx_modes(name, list(prefix), False, digit=True)
